@@ -16,7 +16,8 @@ Init == /\ \E gs \in GridSets : TInit(1, <<SetSeq(gs)>>, <<2>>, <<1>>)
         /\ z = 0 /\ fin = FALSE
 Obs(zn, mx, nd) ==
   LET base == [a |-> 1, rod |-> 1, zlo |-> <<0, z>>, zhi |-> <<0, zn>>, exact |-> 1,
-               lossQ |-> 1, dF |-> zn - z, cF |-> zn - z, dG |-> 0, cG |-> 0] IN
+               lossQ |-> 1, dF |-> zn - z, cF |-> zn - z, dG |-> 0, cG |-> 0,
+               inreg |-> 1] IN
   LET h == Cardinality({g \in 1..Len(grids[1]) : InStep(grids[1][g], <<0, z>>, <<0, zn>>)}) IN
   [base EXCEPT !.a = 1] @@
   [dS |-> h, FTot |-> F[1] + (zn - z), STot |-> S[1] + h, GTot |-> 0,
